@@ -118,6 +118,20 @@ theorem contended_prompt_once_free (start : Nat) (timeout interval : Int) (held 
       rw [← hx, hfree t (by omega)] at this
       cases this
 
+/-- "the retry gives up only if the gate was held the whole time" -/
+def C31_contended_full : Prop :=
+  ∀ (start : Nat) (timeout interval : Int) (held : Nat → Bool) (t : Nat),
+    beginWithRetryH start timeout interval held = .timedOut t →
+    ∀ u, start ≤ u → u ≤ t → held u = true
+
+/-- what is true instead: held at every POLL instant (`contended_fails_only_if_every_poll_held`);
+between polls the gate may have been free: -/
+theorem contended_witness : ¬ C31_contended_full := by
+  intro h
+  have := h 0 30 10 (fun t => t % 10 == 0) 40 (by decide) 5 (by decide) (by decide)
+  revert this
+  decide
+
 /-- what the property's single-holder reading does NOT exclude: contenders that happen to
 hold the gate at every poll instant (here: at every multiple of the interval) make the call
 fail although the gate was free in between and no single operation ran for long -/
